@@ -246,24 +246,20 @@ impl Stream for Permutations {
         match &self.1 {
             None => Some(0),
             Some(v) => {
-                let mut cur = 1usize;
-                Some(
-                    (1..v.len())
-                        .map(|i| {
-                            // Each way we could replace v[len - 1 - i] with a later number that's larger
-                            // gives us cur.
-                            // i = 0, cur = undef
-                            // i = 1, cur = 1
-                            // i = 2, cur = 2
-                            // i = 3, cur = 6
-                            cur *= i;
-                            cur * (v.len() - i..v.len())
-                                .filter(|j| v[*j] > v[v.len() - 1 - i])
-                                .count()
-                        })
-                        .sum::<usize>()
-                        + 1usize,
-                )
+                // None, as in Range::len, when the count does not fit usize
+                let n = v.len();
+                let mut cur = Some(1usize);
+                let mut total = 1usize;
+                for i in 1..n {
+                    // Each way we could replace v[n - 1 - i] with a later number that's larger
+                    // gives us cur = i!.
+                    cur = cur.and_then(|c| c.checked_mul(i));
+                    let larger = (n - i..n).filter(|j| v[*j] > v[n - 1 - i]).count();
+                    if larger > 0 {
+                        total = total.checked_add(larger.checked_mul(cur?)?)?;
+                    }
+                }
+                Some(total)
             }
         }
     }
@@ -400,23 +396,17 @@ impl Stream for Subsequences {
         match &self.1 {
             None => Some(0),
             Some(v) => {
-                let mut cur = 1usize;
-                Some(
-                    (0..v.len())
-                        .rev()
-                        .map(|i| {
-                            let s = if !v[i] {
-                                // If we keep everything before this and set this to true:
-                                cur
-                            } else {
-                                0
-                            };
-                            cur *= 2;
-                            s
-                        })
-                        .sum::<usize>()
-                        + 1usize,
-                )
+                // None, as in Range::len, when the count does not fit usize
+                let mut cur = Some(1usize);
+                let mut total = 1usize;
+                for i in (0..v.len()).rev() {
+                    if !v[i] {
+                        // If we keep everything before this and set this to true:
+                        total = total.checked_add(cur?)?;
+                    }
+                    cur = cur.and_then(|c| c.checked_mul(2));
+                }
+                Some(total)
             }
         }
     }
@@ -476,19 +466,19 @@ impl Stream for CartesianPower {
         match &self.1 {
             None => Some(0),
             Some(v) => {
-                let mut cur = 1usize;
-                Some(
-                    (0..v.len())
-                        .rev()
-                        .map(|i| {
-                            // If we keep everything before this and increase this:
-                            let s = (self.0.len() - 1 - v[i]) * cur;
-                            cur *= self.0.len();
-                            s
-                        })
-                        .sum::<usize>()
-                        + 1usize,
-                )
+                // None, as in Range::len, when the count does not fit usize
+                let m = self.0.len();
+                let mut cur = Some(1usize);
+                let mut total = 1usize;
+                for i in (0..v.len()).rev() {
+                    // If we keep everything before this and increase this:
+                    let d = m - 1 - v[i];
+                    if d > 0 {
+                        total = total.checked_add(d.checked_mul(cur?)?)?;
+                    }
+                    cur = cur.and_then(|c| c.checked_mul(m));
+                }
+                Some(total)
             }
         }
     }
